@@ -100,6 +100,10 @@ def expand (s : St) (g : Nat) : Option St :=
         match CoSeq.step s.d .mark with
         | some (d', _) => some (load s g d' [] rest)
         | none => none
+      | .unmark e =>
+        match CoSeq.step s.d (.unmark e) with
+        | some (d', _) => some (load s g d' [.run] rest)   -- the variable's __close handler: Lua code
+        | none => none
   else none
 
 inductive Step : St → St → Prop
